@@ -1,12 +1,12 @@
 SPECIFICATION MCSpec
 CONSTANTS
   Cats = {"NP", "S/NP"}
-  Words = {"vw"}
-  MaxTrees = 1
-  Depth = 2
-  CatCut = 1
-  WordCut = 1
-  Mode = "train"
+  Words = {"w", "vw"}
+  MaxTrees = 2
+  Depth = 1
+  CatCut = 2
+  WordCut = 2
+  Mode = "test"
   AfixCut = 1
   SpellOf <- MCSpellOf
 INVARIANT FilesAreTheCounts
